@@ -1,11 +1,22 @@
 //! C01: generated well-typed programs through the real pipeline vs the Lean reference
 //! semantics `GluonModel.Surf.eval`.
 //!
+//! Every program runs twice — optimisation off, and with the DEFAULT settings (optimisation on) —
+//! and both outcomes are compared with the reference exactly (the Lean driver answers the
+//! `evalsurf` requests; the harness-side transcription `c01/refsem.rs` feeds the oracle). The one
+//! liberty the optimised run has is the documented one: an unneeded *builtin* arithmetic failure
+//! may be skipped (see refsem.rs, `Mode::Lenient`).
+//!
 //! Programs run in child processes in batches, so that an abort / native stack overflow of the
 //! implementation is an *outcome* of one program and not the end of the run.
 use gv::surf::{self, Gen};
 use gv::{Args, Out};
 use std::time::Duration;
+
+#[path = "c01/family.rs"]
+mod family;
+#[path = "c01/refsem.rs"]
+mod refsem;
 
 /// Make a panic message usable as a stable fingerprint: addresses, numbers and generated
 /// variable names are replaced.
@@ -33,16 +44,15 @@ fn normalize(msg: &str) -> String {
     out.chars().take(90).collect()
 }
 
-fn child() {
+fn child(optimize: bool) {
     let vm = gv::vm::new_vm();
-    gv::vm::settings(&vm, false, false);
+    gv::vm::settings(&vm, false, optimize);
     let mut i = 0;
     gv::capture_panics();
     gv::child::serve(|src| {
         i += 1;
         let r = surf::run_canon(&vm, &format!("p{}", i), src);
         if r.starts_with("panic ") {
-            // identify a panic by its site, not by its message
             // identify a panic by its file and the first words of its message (line numbers
             // move with every edit of the file; messages embed addresses and generated names)
             let msg = normalize(r.trim_start_matches("panic ").trim_matches('"'));
@@ -60,10 +70,40 @@ fn child() {
     });
 }
 
+/// First word of a canonical outcome: `ok`, `err:arith`, `err:user`, `panic`, `abort`, `wrong:…`.
+fn class_of(res: &str) -> String {
+    res.split(' ').next().unwrap().trim_matches(|c| c == '(' || c == ')').to_string()
+}
+
+/// Fingerprint of an internal failure of the pipeline (panic / abort / VM shape complaint).
+fn internal_fp(class: &str, res: &str) -> String {
+    if class == "abort" {
+        format!("abort:{}", res.trim_start_matches("abort "))
+    } else if class == "panic" {
+        // the panic message identifies the failing site
+        if res.starts_with("panic @") {
+            format!("panic:{}", res.trim_start_matches("panic "))
+        } else {
+            format!("panic:{}", normalize(res.trim_start_matches("panic ").trim_matches('"')))
+        }
+    } else {
+        res.chars().take(70).collect::<String>()
+    }
+}
+
+fn is_internal(class: &str) -> bool {
+    class == "panic" || class == "abort" || class.starts_with("wrong")
+}
+
 fn main() {
     gv::quiet_panics();
     if std::env::args().nth(1).as_deref() == Some("--child") {
-        child();
+        child(false);
+        return;
+    }
+    if std::env::args().nth(1).as_deref() == Some("--child-opt") {
+        // the default settings of the language: optimisation on
+        child(true);
         return;
     }
     let args = Args::parse();
@@ -72,35 +112,65 @@ fn main() {
         let v: serde_json::Value = serde_json::from_str(&std::fs::read_to_string(rp).unwrap()).unwrap();
         let src = v["case"]["source"].as_str().unwrap().to_string();
         println!("{}", src);
-        let r = gv::child::batch(&["--child"], &[src], 1, Duration::from_secs(60));
-        println!("=> {:?}", r[0]);
+        let r = gv::child::batch(&["--child"], &[src.clone()], 1, Duration::from_secs(60));
+        println!("optimisation off => {:?}", r[0]);
+        let r = gv::child::batch(&["--child-opt"], &[src], 1, Duration::from_secs(60));
+        println!("optimisation on (default) => {:?}", r[0]);
+        if let Some(x) = v["case"]["reference"].as_str() {
+            println!("reference semantics => {}", x);
+        }
         out.finish();
         return;
     }
     let n = if args.thorough() { 8000 } else { 600 };
     let mut rng = gv::rng::Rng::new(args.seed, 1);
-    let mut progs = vec![];
+    // (program, text, family key)
+    let mut progs: Vec<(surf::Expr, String, Option<String>)> = vec![];
+    // the enumerated neighbourhood "binding whose right-hand side contains a call" first
+    for c in family::enumerate(args.thorough()) {
+        let src = surf::program_text(&c.expr);
+        let key = c.key();
+        progs.push((c.expr, src, Some(key)));
+    }
     for i in 0..n {
         let mut g = Gen::new(&mut rng);
         let depth = 2 + (i % 4) as u32;
         let (e, _t) = g.program(depth);
         let src = surf::program_text(&e);
-        progs.push((e, src));
+        progs.push((e, src, None));
     }
     let inputs: Vec<String> = progs.iter().map(|p| p.1.clone()).collect();
     let results = gv::child::batch(&["--child"], &inputs, 100, Duration::from_secs(300));
-    for (i, ((e, src), res)) in progs.iter().zip(results.iter()).enumerate() {
-        let res = match res {
-            Ok(r) => r.clone(),
-            Err(class) => format!("abort {}", class),
-        };
-        let class = res.split(' ').next().unwrap().trim_matches(|c| c == '(' || c == ')').to_string();
+    let results_opt = gv::child::batch(&["--child-opt"], &inputs, 100, Duration::from_secs(300));
+    // the harness-side transcription of the documented semantics (independent of the Lean model)
+    let reference = refsem::outcomes(progs.iter().map(|p| p.0.clone()).collect());
+    let flat = |r: &Result<String, String>| match r {
+        Ok(r) => r.clone(),
+        Err(class) => format!("abort {}", class),
+    };
+    for (i, (e, src, fam)) in progs.iter().enumerate() {
+        let res = flat(&results[i]);
+        let res_opt = flat(&results_opt[i]);
+        let (strict, lenient, deferred) = &reference[i];
+        let class = class_of(&res);
+        let class_opt = class_of(&res_opt);
+        let leg = if fam.is_some() { "family" } else { "random" };
+        out.count(&format!("programs:{}", leg));
         out.count(&format!("outcome:{}", class));
+        out.count(&format!("outcome-opt:{}", class_opt));
+        if let Some(k) = fam {
+            for (dim, part) in ["form", "shape", "behaviour", "position", "callee"].iter().zip(k.split('/')) {
+                out.count(&format!("family:{}:{}", dim, part));
+            }
+        }
         if class == "err:static" {
             // the real checker rejects it: outside the fragment (or a generator slip); never
             // compared
             out.count("skipped:static-error");
             out.count(&format!("reject:{}", res));
+            if let Some(k) = fam {
+                out.count(&format!("family-rejected:{}", k));
+            }
             if std::env::var("C01_DUMP").is_ok() {
                 use std::io::Write;
                 let mut f = std::fs::OpenOptions::new().create(true).append(true).open("/tmp/c01_rejects.txt").unwrap();
@@ -108,41 +178,101 @@ fn main() {
             }
             continue;
         }
-        if class == "panic" || class == "abort" || class.starts_with("wrong") {
-            let fp = if class == "abort" {
-                format!("abort:{}", res.trim_start_matches("abort "))
-            } else if class == "panic" {
-                // the panic message identifies the failing site
-                if res.starts_with("panic @") {
-                    format!("panic:{}", res.trim_start_matches("panic "))
-                } else {
-                    format!("panic:{}", normalize(res.trim_start_matches("panic ").trim_matches('"')))
-                }
-            } else {
-                res.chars().take(70).collect::<String>()
-            };
+        let replay = |optimize: bool| {
+            serde_json::json!({"source": src, "optimize": optimize, "reference": strict, "family": fam})
+        };
+        let mut reported: Option<String> = None;
+        if is_internal(&class) {
+            let fp = internal_fp(&class, &res);
             out.oracle_fail(
                 &fp,
                 &format!("a generated program made the pipeline fail internally: {}", res),
-                serde_json::json!({"source": src}),
+                replay(false),
             );
-            // reported by the oracle (above); not a correspondence case
-            continue;
+            reported = Some(fp);
+        }
+        if is_internal(&class_opt) {
+            let fp = internal_fp(&class_opt, &res_opt);
+            if reported.as_deref() != Some(&fp) {
+                out.oracle_fail(
+                    &fp,
+                    &format!("a generated program made the pipeline fail internally with the default settings (optimisation on): {}", res_opt),
+                    replay(true),
+                );
+            }
+        }
+        let ref_usable = strict != "fuel" && !strict.starts_with("wrong:");
+        if !ref_usable {
+            out.count(&format!("skipped:reference-{}", class_of(strict)));
         }
         let cs = surf::constructs(e);
-        for c in &cs {
-            out.count(&format!("construct:{}", c));
+        // ---- leg 1: optimisation off ----------------------------------------------------
+        if !is_internal(&class) {
+            if ref_usable && &res != strict {
+                out.oracle_fail(
+                    &format!("wrong-without-optimisation:{}->{}", class_of(strict), class),
+                    &format!(
+                        "a well-typed program run with optimisation off yields {} where the documented strict semantics assigns {}",
+                        res, strict
+                    ),
+                    replay(false),
+                );
+            }
+            for c in &cs {
+                out.count(&format!("construct:{}", c));
+            }
+            if cs.len() >= 3 {
+                let mut key: Vec<&str> = cs.iter().cloned().collect();
+                key.push(&class);
+                out.class(key.join(","));
+            }
+            out.count(&format!("size:{}", (surf::size(e) / 10) * 10));
+            if i % 97 == 3 {
+                out.sample(serde_json::json!({"source": src, "impl": res, "impl_optimised": res_opt}));
+            }
+            out.case(&format!("evalsurf {}", surf::sexp(e)), &res);
         }
-        if cs.len() >= 3 {
-            let mut key: Vec<&str> = cs.iter().cloned().collect();
-            key.push(&class);
-            out.class(key.join(","));
+        // ---- leg 2: the default settings (optimisation on) --------------------------------
+        if class_opt == "err:static" {
+            // cannot happen when the unoptimised compile succeeded; never compared
+            out.count("skipped:static-error-only-optimised");
+            continue;
         }
-        out.count(&format!("size:{}", (surf::size(e) / 10) * 10));
-        if i % 97 == 3 {
-            out.sample(serde_json::json!({"source": src, "impl": res}));
+        if is_internal(&class_opt) {
+            continue;
         }
-        out.case(&format!("evalsurf {}", surf::sexp(e)), &res);
+        let candidate = ref_usable && strict == "err:arith" && &res == strict;
+        if candidate {
+            // the reference outcome is a builtin-or-callee arithmetic failure and the
+            // unoptimised run agrees: the only situation in which the optimiser's documented
+            // liberty (an unused builtin arithmetic failure may be skipped) can apply
+            out.count("opt:permitted-arith-skip-candidate");
+        }
+        if ref_usable && &res_opt == strict {
+            out.count("opt:agrees-with-reference");
+        } else if candidate && &res_opt == lenient && *deferred > 0 {
+            // … and it applies only if the optimised outcome is exactly what skipping unneeded
+            // *builtin* failures gives (calls are never skipped; see refsem.rs)
+            out.count("opt:permitted-arith-skip-taken");
+            out.count("skipped:opt-permitted-arith-skip");
+            if let Some(k) = fam {
+                out.class(format!("family:{}:opt-skip", k));
+            }
+            continue;
+        } else if ref_usable {
+            out.oracle_fail(
+                &format!("wrong-with-optimisation:{}->{}", class_of(strict), class_opt),
+                &format!(
+                    "a well-typed program run with the default settings (optimisation on) yields {} where the documented strict semantics assigns {} (optimisation off: {})",
+                    res_opt, strict, res
+                ),
+                replay(true),
+            );
+        }
+        if let Some(k) = fam {
+            out.class(format!("family:{}:{}", k, class_opt));
+        }
+        out.case(&format!("evalsurf {}", surf::sexp(e)), &res_opt);
     }
     out.finish();
 }
